@@ -118,7 +118,7 @@ class Models(object):
                 present = znot(opt.is_none(z3.Select(o.t, k)))
                 nm.keys = VSeq(z3.If(present, o.keys.t, z3.Concat(o.keys.t, z3.Unit(k))), o.keys.elem)
             # value semantics: write the new map back where the old one came from
-            return self._writeback(ex, path, tgt, fr, nm)
+            return self._writeback(ex, path, tgt, fr, nm, old=o)
         return None
 
     def delitem(self, ex, path, o, i, tgt, fr):
@@ -131,7 +131,7 @@ class Models(object):
                 nm = VMap(z3.Store(o.t, k, opt.dt.constructor(0)()), o.kt, o.vt)
                 if o.keys is not None:
                     nm.keys = VSeq(seq_remove_fn(o.keys.t.sort())(o.keys.t, k), o.keys.elem)
-                out.extend(self._writeback(ex, pt, tgt, fr, nm))
+                out.extend(self._writeback(ex, pt, tgt, fr, nm, old=o))
             if pf is not None:
                 out.extend(ex.raise_(pf, KeyError, i))
             return out
@@ -153,15 +153,29 @@ class Models(object):
             return out
         return None
 
-    def _writeback(self, ex, path, tgt, fr, newval):
-        """store a value-semantics container back into the expression it was read from"""
+    def _writeback(self, ex, path, tgt, fr, newval, old=None):
+        """store a value-semantics container back into the expression it was read from - and, when that expression is a local
+        name holding a dict that was read from an object field (`registry = self.map.addr`), into that field as well: both
+        name the same Python object"""
         if tgt is None:
             raise NotImplementedError('no write-back target')
         base = tgt.value
         import copy
         st = copy.copy(base)
         st.ctx = ast.Store()
-        return ex.assign(st, newval, path, fr)
+        org = getattr(old, 'origin', None) if old is not None else None
+        if org is not None:
+            try:
+                newval.origin = org
+            except Exception:
+                pass
+        outs = ex.assign(st, newval, path, fr)
+        if org is not None and org[0] == 'f' and isinstance(base, ast.Name):
+            for p, r in outs:
+                cur = p.heap.get(org)
+                if isinstance(cur, VMap) and old is not None and cur.t is old.t:
+                    p.heap[org] = newval
+        return outs
 
     def inplace(self, ex, path, op, cur, rhs):
         return None
@@ -852,6 +866,12 @@ class Models(object):
     def seq_method(self, ex, path, sv, name, args, kw):
         """list methods on a symbolic-spine list (value semantics + write-back to where it was read)"""
         from .exec import Unsupported
+        if name in ('append', 'insert') and args and isinstance(args[-1], VUnion):
+            # an optional value being stored: decide which alternative it is on this path first
+            out = []
+            for p, x in ex.split(path, args[-1]):
+                out.extend(self.seq_method(ex, p, sv, name, list(args[:-1]) + [x], kw))
+            return out
 
         def store(t):
             if sv.origin is None:
@@ -1111,6 +1131,8 @@ class Models(object):
                 cnt = args[0].t
                 path.assume_def([r.t], [z3.Implies(cnt >= 0, r.t == z3.Concat(mk_str(pre), z3.IntToStr(cnt), mk_str(post)))])
             return [(path, r)]
+        if name == 'join' and len(args) != 1 and not kw:
+            return ex.raise_(path, TypeError, 'join() takes exactly one argument (%d given)' % len(args))
         if name == 'join' and len(args) == 1:
             a = args[0]
             if isinstance(a, (VList, VTuple)):
